@@ -259,6 +259,9 @@ func checkAccept(rec *stats.Recorder, c acceptCase) (msg string, known string) {
 	t := typeByName(c.Type)
 	v := c.Value
 	doc, ok := renderAccept(c, t, refcodec.Protocol)
+	if c.Variation == "fuzz" {
+		doc, ok = c.Doc, true // a document found by the native fuzz job (replay)
+	}
 	if !ok {
 		return "", "" // not denotable in JSON (generator does not produce these)
 	}
